@@ -35,7 +35,7 @@ FIELDS = [
     # a line end inside a format spec: part of the spec in a triple-quoted f-string, its end in a single-quoted one
     "{a:>\n3}", "{a:x\ny}", "{a:{w}\n}", "{a:\n{w}}", "{a:>\\\n3}", "{a!r:>\n}",
     # a debug field that goes on over the end of the line
-    "{a=\n}", "{a = \n!r}", "{a=\n:>3}", "{a\n=}", "{a=!r\n}",
+    "{a=\n}", "{a = \n!r}", "{a=\n:>3}", "{a\n=}", "{a=!r\n}", "{a # c\n=}", "{'#' + a=}",
 ]
 ADJ = ["'s' {F}", "{F} 's'", "{F} {F}", "{F} {G}", "f({F}, {{}})", "x = {F}; y = {{1: 2}}", "{F} if a else {{}}", "b'x' {F}", "{F}\n{G}\n", "({F}\n 's'\n 't')",
        "print({F}, {G}, sep='{{')", "[{F} for a in {{1}}]", "p{F}", "{F}.format(1)", "u's' {F}", "r's' {F}"]
